@@ -40,16 +40,16 @@ var coveredVia = map[string]string{
 var skipped = map[string]string{
 	"strings.NewReader": "stateful io type, not a function port with an argument list", "strings.Reader.*": "stateful io type (methods)",
 	"strings.NewReplacer": "stateful type; Replace/ReplaceAll are covered as functions", "strings.Replacer.*": "stateful type (methods)",
-	"strings.Builder.*": "stateful type (methods)",
+	"strings.Builder.*":               "stateful type (methods)",
 	"hash/crc32.digest.MarshalBinary": "serialised digest state is an internal format, not compared", "hash/crc32.digest.UnmarshalBinary": "serialised digest state is an internal format, not compared",
-	"bytes.NewBuffer":   "stateful io type", "bytes.NewBufferString": "stateful io type", "bytes.Buffer.*": "stateful io type (methods); used by the base64/base32/hex NewEncoder entries",
+	"bytes.NewBuffer": "stateful io type", "bytes.NewBufferString": "stateful io type", "bytes.Buffer.*": "stateful io type (methods); used by the base64/base32/hex NewEncoder entries",
 	"bytes.NewReader": "stateful io type; used by the binary.ReadUvarint/ReadVarint entries", "bytes.Reader.*": "stateful io type (methods)",
 	"unicode/utf8.EncodeRuneString": "Wa-only helper, no Go counterpart",
 	"encoding/hex.EncodeU8":         "Wa-only helper, no Go counterpart", "encoding/hex.EncodeU16": "Wa-only helper, no Go counterpart",
 	"encoding/hex.EncodeU32": "Wa-only helper, no Go counterpart", "encoding/hex.EncodeU64": "Wa-only helper, no Go counterpart",
 	"encoding/hex.InvalidByteError.Error": "error text, not compared", "encoding/base64.CorruptInputError.Error": "error text, not compared",
 	"encoding/base32.CorruptInputError.Error": "error text, not compared",
-	"encoding/binary.littleEndian.WaString":  "Wa-only (Go: GoString)", "encoding/binary.bigEndian.WaString": "Wa-only (Go: GoString)",
+	"encoding/binary.littleEndian.WaString":   "Wa-only (Go: GoString)", "encoding/binary.bigEndian.WaString": "Wa-only (Go: GoString)",
 	"encoding/base64.encoder.*": "methods of the stream types, exercised through NewEncoder/NewDecoder", "encoding/base64.decoder.*": "methods of the stream types, exercised through NewEncoder/NewDecoder",
 	"encoding/base64.newlineFilteringReader.*": "internal stream type, exercised through NewDecoder",
 	"encoding/base32.encoder.*":                "methods of the stream types, exercised through NewEncoder/NewDecoder", "encoding/base32.decoder.*": "methods of the stream types, exercised through NewEncoder/NewDecoder",
